@@ -76,6 +76,15 @@ def edits(desc):
         for lab, fn in (("unsorted", lambda t: t[:1] + [t[2], t[1]] + t[3:] if len(t) > 2 else t[::-1]), ("NaN", lambda t: t[:-1] + ["nan"]), ("inf", lambda t: t[:-1] + ["inf"]), ("-inf first", lambda t: ["-inf"] + t[1:]), ("all equal", lambda t: [t[0]] * len(t))):
             if nk[d] < 2: continue
             ed("KNOTS%d data %s" % (d, lab), lambda f, d=d, fn=fn: (lambda h: (setattr(h, "data", fn(h.data)), f)[1])(knot_hdu(f, d)), "valid" if lab == "all equal" else "any")
+    # consistent but under-sized tables: every header agrees, yet a dimension has fewer than order+1 coefficients
+    for d in range(nd):
+        for lab, n2 in (("naxes = order", 2 * o[d] + 1), ("naxes = 1", o[d] + 2), ("naxes = order-1", 2 * o[d])):
+            if n2 >= 2 * o[d] + 2 or n2 < o[d] + 2 or n2 > nk[d]: continue
+            def shrink(f, d=d, n2=n2):
+                kn = [list(k) for k in desc["knots"]]; kn[d] = kn[d][:n2]; na = [len(kn[e]) - o[e] - 1 for e in range(nd)]; n = 1
+                for a in na: n *= a
+                return M.spline_file(orders=list(o), knots=kn, coeffs=[Fr(i % 5, 2) for i in range(n)], extents=None, periods=None, aux=())
+            ed("dimension %d consistently shrunk to %s" % (d, lab), shrink)
     # coefficient image edits
     if nd >= 2 and naxes[0] != naxes[-1]:
         ed("coefficient axes swapped", lambda f: (M.set_axes(f.hdus[0], list(reversed(f.hdus[0].axes))), f)[1])
